@@ -181,7 +181,9 @@ func TBE(reftree *tree.Tree, boottrees <-chan tree.Trees, cpu int,
 		}
 	}
 
-	for _, e := range edges {
+	for i, e := range edges {
+		// The tables below are indexed by edge id
+		e.SetId(i)
 		e.SetSupport(tree.NIL_SUPPORT)
 		if !e.Right().Tip() {
 			e.Right().SetName("")
